@@ -94,6 +94,9 @@ def main():
         return
     rel, props = sys.argv[2], sys.argv[3].split(",")
     every, offset, mx, tier = 1, 0, 10 ** 9, "quick"
+    ponly = "--ponly" in sys.argv
+    if ponly:
+        sys.argv.remove("--ponly")
     nodrop = "--nodrop" in sys.argv
     if nodrop:
         sys.argv.remove("--nodrop")
@@ -104,6 +107,9 @@ def main():
         if a[i] == "--max": mx = int(a[i + 1])
         if a[i] == "--tier": tier = a[i + 1]
     ms = [m for m in mutants(os.path.join(REPO, rel)) if not (nodrop and m["op"] == "drop-stmt")]
+    if ponly:
+        # only mutants of the templates of generated code (lines printed with p.P)
+        ms = [m for m in ms if ".P(" in m["old"]]
     for i, m in enumerate(ms):
         m["id"] = i
     os.makedirs("/verif/mutation", exist_ok=True)
